@@ -31,6 +31,8 @@ def _case(draw):
             'bcast': draw(st.one_of(st.just([]), st.lists(st.sampled_from([False, False, True]), min_size=12, max_size=12))),
             # connection attempts that are refused (the caller of that attempt may get a connection error; nobody may hang)
             'refuse': draw(st.one_of(st.just([]), st.just([]), st.lists(st.sampled_from([False, False, True]), min_size=1, max_size=6))),
+            # transactions whose request cannot be encoded: that call raises (caller error); everybody else must be unaffected
+            'badreq': draw(st.one_of(st.just([]), st.just([]), st.lists(st.sampled_from([False, False, True]), min_size=12, max_size=12))),
             'schedule': draw(st.lists(st.integers(0, 3), min_size=8, max_size=120))}
 
 
@@ -101,6 +103,7 @@ def _run(case):
     framing = 'tcp' if case['client'] == 'tcp' else 'rtu'
     peer = ReplyPeer(framing, case['split'], case.get('faults') or [])
     bc = case.get('bcast') or []
+    badreq = case.get('badreq') or []
     kw = {'retries': 3, 'retry_on_empty': True, 'backoff': 0.01, 'broadcast_enable': bool(any(bc))}
     s = sched.Sched(case['schedule'])
     results = {}
@@ -119,13 +122,22 @@ def _run(case):
                     qty = 1 + (t + j) % 4
                     w.log.append(('tx-begin', s.cur, (t, j)))
                     try:
-                        if bc and bc[(t * 3 + j) % len(bc)]:
+                        if badreq and badreq[(t * 5 + j) % len(badreq)]:
+                            from pymodbus.register_write_message import WriteSingleRegisterRequest
+                            try:
+                                r = client.execute(WriteSingleRegisterRequest(addr, 0x10000, unit=1 + t))
+                            except (ConnectionException, sched.Deadlock, transports.StepBudgetExceeded):
+                                raise
+                            except Exception as e:
+                                r = e
+                            qty = -1
+                        elif bc and bc[(t * 3 + j) % len(bc)]:
                             r = client.write_register(addr, 7, unit=0)
                             qty = 0
                         else:
                             r = client.read_holding_registers(addr, qty, unit=1 + t)
                     except ConnectionException as e:
-                        if not case.get('refuse'):
+                        if not case.get('refuse') and not any(badreq):
                             raise
                         r = e          # a refused connection may surface as a connection error of THIS call
                         qty = -1
@@ -178,7 +190,7 @@ def _run(case):
             discs.append(Disc('lost-call', '%d of %d calls returned' % (len(results), total)))
     pm.reset_globals()
     return Outcome(discs, ['client:' + case['client'], 'threads:%d' % len(case['ntx'])] + (['lock-contended'] if s.blocked_someone else []) +
-                   (['faults'] if any(case.get('faults') or []) else []) + (['connect-refused'] if any(case.get('refuse') or []) else []) + (['broadcast'] if any(bc) else []),
+                   (['faults'] if any(case.get('faults') or []) else []) + (['connect-refused'] if any(case.get('refuse') or []) else []) + (['broadcast'] if any(bc) else []) + (['unencodable-request'] if any(badreq) else []),
                    s.blocked_someone), s
 
 
